@@ -26,6 +26,7 @@ import (
 	"encoding/json"
 	"errors"
 	"fmt"
+	"net"
 	"os"
 	"path/filepath"
 	"reflect"
@@ -378,8 +379,17 @@ func classify(err error) string {
 	case err == websocket.ErrCloseSent:
 		return "closesent"
 	}
+	// WriteControl gave up waiting for the write lock: the package's (unexported) write timeout error
+	if ne, ok := err.(net.Error); ok && ne.Timeout() {
+		return "timeout"
+	}
 	return "other"
 }
+
+// shortDeadline is the deadline class "short" of a control write (opcode with the suffix "~"):
+// positive, so that WriteControl arms its timer and waits for the lock (a deadline in the past
+// returns at once, before the lock is looked at), and far below the bounded waits of the scheduler.
+const shortDeadline = 2 * time.Millisecond
 
 func (s *session) runProc(p *proc, ready chan<- struct{}) {
 	p.goid = goid()
@@ -463,7 +473,7 @@ func (s *session) begin(p *proc) bool {
 }
 
 // settle lets the process get where the generator predicts it gets after the item, as far
-// as that can be seen: "g" it arrives at a gate (waited for, bounded; the arrival is kept
+// as that can be seen: "t" it gives up waiting for the lock and returns (waited for), "g" it arrives at a gate (waited for, bounded; the arrival is kept
 // for its "w" item), "l" it parks on the lock (cannot be seen: the processor is yielded a
 // few times), "r" its call returns (not waited for: nobody depends on it, and the
 // scheduler learning about the return would order the caller's last steps before
@@ -488,6 +498,23 @@ func (s *session) settle(p *proc, exp string) {
 	case "l":
 		for i := 0; i < 4; i++ {
 			runtime.Gosched()
+		}
+	case "t":
+		// a control write with a short deadline that finds the lock taken: the schedule goes on
+		// when it has given up (or, if the prediction is wrong, arrived at its gate)
+		if p.pending != nil || !p.busy {
+			return
+		}
+		select {
+		case e := <-p.evc:
+			if e.ret {
+				s.onRet(p, e)
+			} else {
+				p.pending = &e
+				s.late++
+			}
+		case <-time.After(s.wait + 25*shortDeadline):
+			s.late++
 		}
 	case "r":
 	default:
@@ -523,7 +550,11 @@ func (s *session) step(p *proc) bool {
 	return true
 }
 
+// stallTimeout bounds the wait for calls to return once every transport operation they can
+// be blocked in has been served. Generous, so that load cannot trip it; after a few schedules
+// of the batch have stalled (the verdict is there) the rest is not waited for that long.
 var stallTimeout = 20 * time.Second
+var stallsSeen = 0
 
 // drain serves everything that is left, in the order of arrival.
 func (s *session) drain() {
@@ -643,14 +674,18 @@ func runSchedule(c *schedCase, idx int, seed int, wait time.Duration) outcome {
 	for k := range c.Ctl {
 		k := k
 		add(fmt.Sprintf("K%d", k+1), len(c.Ctl[k]), func(call int) error {
-			switch op := c.Ctl[k][call-1]; op {
+			op, deadline := c.Ctl[k][call-1], far
+			if strings.HasSuffix(op, "~") {
+				op, deadline = strings.TrimSuffix(op, "~"), time.Now().Add(shortDeadline)
+			}
+			switch op {
 			case "ping":
-				return s.conn.WriteControl(websocket.PingMessage, ctlPayload(k+1, call), far)
+				return s.conn.WriteControl(websocket.PingMessage, ctlPayload(k+1, call), deadline)
 			case "pong":
-				return s.conn.WriteControl(websocket.PongMessage, ctlPayload(k+1, call), far)
+				return s.conn.WriteControl(websocket.PongMessage, ctlPayload(k+1, call), deadline)
 			case "close":
 				return s.conn.WriteControl(websocket.CloseMessage,
-					websocket.FormatCloseMessage(websocket.CloseNormalClosure, string(ctlPayload(k+1, call))), far)
+					websocket.FormatCloseMessage(websocket.CloseNormalClosure, string(ctlPayload(k+1, call))), deadline)
 			default:
 				rp.Bug("unknown control opcode %q", op)
 				return nil
@@ -898,6 +933,9 @@ func (s *session) evaluate(idx int, payloads [][]byte, got []delivered, xClosed 
 		problem("C15/panic", "panic in a library call: %s", firstLine(p))
 	}
 	if len(s.stalled) > 0 {
+		if stallsSeen++; stallsSeen >= 3 {
+			stallTimeout = 2 * time.Second
+		}
 		problem("C15/stall", "calls of %v did not return within %v after every transport operation was served", s.stalled, stallTimeout)
 	}
 	for i, f := range frames {
@@ -922,10 +960,24 @@ func (s *session) evaluate(idx int, payloads [][]byte, got []delivered, xClosed 
 				lateBegun[e.Proc] = map[int]bool{}
 			}
 			lateBegun[e.Proc][e.Call] = true
+		case e.Ev == "ret" && lateBegun[e.Proc][e.Call] && e.Res == "timeout" && s.shortCall(e.Proc, e.Call):
+			// gave up waiting for the lock: it failed and wrote nothing
 		case e.Ev == "ret" && lateBegun[e.Proc][e.Call] && e.Res != "closesent":
 			problem("C15/late-write-not-close-sent", "%s call %d began after the Close frame was written and returned %q, not the close-sent error", e.Proc, e.Call, e.Res)
 		case e.Ev == "ret" && e.Proc == "X" && !xClosed:
 			problem("C15/close-not-closing", "Conn.Close returned without closing the transport")
+		}
+	}
+	for _, e := range s.ev {
+		if e.Ev == "ret" && e.Res == "timeout" {
+			if !s.shortCall(e.Proc, e.Call) {
+				problem("C15/timeout-without-deadline", "%s call %d returned a write timeout although its deadline is far away", e.Proc, e.Call)
+			}
+			for _, w := range s.writes {
+				if w.proc == e.Proc && w.call == e.Call {
+					problem("C15/timeout-after-write", "%s call %d returned a write timeout but made a transport write", e.Proc, e.Call)
+				}
+			}
 		}
 	}
 	if !o.classes["C15/torn-frame"] {
@@ -969,6 +1021,17 @@ func (s *session) evaluate(idx int, payloads [][]byte, got []delivered, xClosed 
 	}
 	o.info["extra"] = extraHeld
 	return o
+}
+
+func (s *session) shortCall(proc string, call int) bool {
+	if !strings.HasPrefix(proc, "K") {
+		return false
+	}
+	k, err := strconv.Atoi(proc[1:])
+	if err != nil || k < 1 || k > len(s.c.Ctl) || call < 1 || call > len(s.c.Ctl[k-1]) {
+		return false
+	}
+	return strings.HasSuffix(s.c.Ctl[k-1][call-1], "~")
 }
 
 func (s *session) wireSummary() string {
